@@ -469,10 +469,11 @@ def pageStats {α} (o : ColOrder α) (vals : List (Option α)) : PageStats α :=
 
 /-! ## Chunk statistics: the fold of `recordPageStats` -/
 
-/-- MIRROR writer.go:2732-2762 `recordPageStats` (min/max part): pages without bounds leave the
-    chunk statistics alone; the first page with bounds initialises them; later pages replace
-    max when `Compare(max, existing) > 0` and min when `Compare(min, existing) < 0`. -/
-def foldStep {α} (lt : α → α → Bool) (acc : Option (α × α)) (pg : Option (α × α)) : Option (α × α) :=
+/-- MIRROR of writer.go `recordPageStats` (min/max part) BEFORE the fix "chunk statistics replace a
+    NaN bound": pages without bounds leave the chunk statistics alone; the first page with bounds
+    initialises them; later pages replace max when `Compare(max, existing) > 0` and min when
+    `Compare(min, existing) < 0`. Kept as a regression fact. -/
+def foldStep_before_fix {α} (lt : α → α → Bool) (acc : Option (α × α)) (pg : Option (α × α)) : Option (α × α) :=
   match pg with
   | none => acc
   | some (pmn, pmx) =>
@@ -480,21 +481,21 @@ def foldStep {α} (lt : α → α → Bool) (acc : Option (α × α)) (pg : Opti
     | none => some (pmn, pmx)
     | some (emn, emx) => some (if lt pmn emn then pmn else emn, if lt emx pmx then pmx else emx)
 
-def foldChunk {α} (lt : α → α → Bool) (pages : List (Option (α × α))) : Option (α × α) :=
-  pages.foldl (foldStep lt) none
+def foldChunk_before_fix {α} (lt : α → α → Bool) (pages : List (Option (α × α))) : Option (α × α) :=
+  pages.foldl (foldStep_before_fix lt) none
 
 /-- minimum / maximum bounds of the pages that have bounds, in page order -/
 def pairsOf {α} (pages : List (Option (α × α))) : List (α × α) := pages.filterMap id
 
-theorem foldl_foldStep_pairs {α} (lt : α → α → Bool) : ∀ (pages : List (Option (α × α))) (acc : Option (α × α)),
-    pages.foldl (foldStep lt) acc = (pairsOf pages).foldl (fun a p => foldStep lt a (some p)) acc
+theorem foldl_foldStep_before_fix_pairs {α} (lt : α → α → Bool) : ∀ (pages : List (Option (α × α))) (acc : Option (α × α)),
+    pages.foldl (foldStep_before_fix lt) acc = (pairsOf pages).foldl (fun a p => foldStep_before_fix lt a (some p)) acc
   | [], _ => rfl
   | none :: t, acc => by
     simp only [List.foldl, pairsOf, List.filterMap_cons, id]
-    exact foldl_foldStep_pairs lt t acc
+    exact foldl_foldStep_before_fix_pairs lt t acc
   | some p :: t, acc => by
     simp only [List.foldl, pairsOf, List.filterMap_cons, id]
-    exact foldl_foldStep_pairs lt t _
+    exact foldl_foldStep_before_fix_pairs lt t _
 
 /-- under the NaN law the explicit NaN test of `minLoop` is redundant -/
 theorem minLoop_cons {α} {o : ColOrder α} (h : Lawful o) (lo v : α) (rest : List α) :
@@ -509,43 +510,43 @@ theorem minLoop_cons {α} {o : ColOrder α} (h : Lawful o) (lo v : α) (rest : L
       | true => have := (h.nan _ _ hc).1; simp [hv] at this
     simp [this]
 
-theorem foldl_pairs_some {α} {o : ColOrder α} (h : Lawful o) : ∀ (ps : List (α × α)) (a b : α),
-    ps.foldl (fun acc p => foldStep o.lt acc (some p)) (some (a, b)) =
+theorem foldl_pairs_some_before_fix {α} {o : ColOrder α} (h : Lawful o) : ∀ (ps : List (α × α)) (a b : α),
+    ps.foldl (fun acc p => foldStep_before_fix o.lt acc (some p)) (some (a, b)) =
       some (minLoop o a (ps.map Prod.fst), minLoop o.flip b (ps.map Prod.snd))
   | [], _, _ => rfl
   | (pmn, pmx) :: t, a, b => by
     rw [List.foldl_cons]
-    have e : foldStep o.lt (some (a, b)) (some (pmn, pmx)) =
+    have e : foldStep_before_fix o.lt (some (a, b)) (some (pmn, pmx)) =
         some (if o.lt pmn a then pmn else a, if o.lt b pmx then pmx else b) := rfl
-    rw [e, foldl_pairs_some h t, List.map_cons, List.map_cons, minLoop_cons h, minLoop_cons h.flip]
+    rw [e, foldl_pairs_some_before_fix h t, List.map_cons, List.map_cons, minLoop_cons h, minLoop_cons h.flip]
     rfl
 
 /-- closed form of the chunk fold -/
-theorem foldChunk_eq {α} {o : ColOrder α} (h : Lawful o) (pages : List (Option (α × α))) :
-    foldChunk o.lt pages =
+theorem foldChunk_before_fix_eq {α} {o : ColOrder α} (h : Lawful o) (pages : List (Option (α × α))) :
+    foldChunk_before_fix o.lt pages =
       match pairsOf pages with
       | [] => none
       | p0 :: pt => some (minLoop o p0.1 (pt.map Prod.fst), minLoop o.flip p0.2 (pt.map Prod.snd)) := by
-  unfold foldChunk
-  rw [foldl_foldStep_pairs]
+  unfold foldChunk_before_fix
+  rw [foldl_foldStep_before_fix_pairs]
   cases hps : pairsOf pages with
   | nil => rfl
   | cons p0 pt =>
     obtain ⟨a, b⟩ := p0
-    simp only [List.foldl, foldStep]
-    exact foldl_pairs_some h pt a b
+    simp only [List.foldl, foldStep_before_fix]
+    exact foldl_pairs_some_before_fix h pt a b
 
 /-- SPEC-side statement of what the chunk statistics must be, given per-page bounds. The hypothesis is
     exactly what the code needs: the FIRST page that has bounds must not be an all-NaN page. -/
-theorem foldChunk_spec {α} {o : ColOrder α} (h : Lawful o) (pages : List (Option (α × α)))
+theorem foldChunk_before_fix_spec {α} {o : ColOrder α} (h : Lawful o) (pages : List (Option (α × α)))
     (p0 : α × α) (pt : List (α × α)) (hps : pairsOf pages = p0 :: pt)
     (hok : o.ok p0.1 = true ∧ o.ok p0.2 = true) :
-    ∃ cmn cmx, foldChunk o.lt pages = some (cmn, cmx) ∧
+    ∃ cmn cmx, foldChunk_before_fix o.lt pages = some (cmn, cmx) ∧
       o.ok cmn = true ∧ o.ok cmx = true ∧
       cmn ∈ (pairsOf pages).map Prod.fst ∧ cmx ∈ (pairsOf pages).map Prod.snd ∧
       (∀ p ∈ pairsOf pages, o.ok p.1 = true → o.lt p.1 cmn = false) ∧
       (∀ p ∈ pairsOf pages, o.ok p.2 = true → o.lt cmx p.2 = false) := by
-  rw [foldChunk_eq h, hps]
+  rw [foldChunk_before_fix_eq h, hps]
   obtain ⟨a1, a2, a3⟩ := minLoop_spec h (pt.map Prod.fst) p0.1 hok.1
   obtain ⟨b1, b2, b3⟩ := minLoop_spec h.flip (pt.map Prod.snd) p0.2 hok.2
   refine ⟨_, _, rfl, a2, b2, by simpa using a1, by simpa using b1, ?_, ?_⟩
@@ -562,19 +563,164 @@ theorem foldChunk_spec {α} {o : ColOrder α} (h : Lawful o) (pages : List (Opti
     · exact Or.inl (by rw [hp])
     · exact Or.inr (List.mem_map.mpr ⟨p, hp, rfl⟩)
 
-theorem foldChunk_none {α} {o : ColOrder α} (h : Lawful o) (pages : List (Option (α × α)))
-    (hps : pairsOf pages = []) : foldChunk o.lt pages = none := by
-  rw [foldChunk_eq h, hps]
+theorem foldChunk_before_fix_none {α} {o : ColOrder α} (h : Lawful o) (pages : List (Option (α × α)))
+    (hps : pairsOf pages = []) : foldChunk_before_fix o.lt pages = none := by
+  rw [foldChunk_before_fix_eq h, hps]
+
+/-- MIRROR writer.go `recordPageStats` (min/max part, as repaired): like the above, and an existing
+    bound that is NaN (`isNaNValue`, left by an all-NaN page) is replaced by the next page's bound. -/
+def foldStep {α} (o : ColOrder α) (acc : Option (α × α)) (pg : Option (α × α)) : Option (α × α) :=
+  match pg with
+  | none => acc
+  | some (pmn, pmx) =>
+    match acc with
+    | none => some (pmn, pmx)
+    | some (emn, emx) =>
+      some (if !o.ok emn || o.lt pmn emn then pmn else emn, if !o.ok emx || o.lt emx pmx then pmx else emx)
+
+def foldChunk {α} (o : ColOrder α) (pages : List (Option (α × α))) : Option (α × α) :=
+  pages.foldl (foldStep o) none
+
+/-- one component of the repaired fold -/
+def minLoopR {α} (o : ColOrder α) (lo : α) : List α → α
+  | [] => lo
+  | v :: rest => minLoopR o (if !o.ok lo || o.lt v lo then v else lo) rest
+
+theorem foldl_foldStep_pairs {α} (o : ColOrder α) : ∀ (pages : List (Option (α × α))) (acc : Option (α × α)),
+    pages.foldl (foldStep o) acc = (pairsOf pages).foldl (fun a p => foldStep o a (some p)) acc
+  | [], _ => rfl
+  | none :: t, acc => by
+    simp only [List.foldl, pairsOf, List.filterMap_cons, id]
+    exact foldl_foldStep_pairs o t acc
+  | some p :: t, acc => by
+    simp only [List.foldl, pairsOf, List.filterMap_cons, id]
+    exact foldl_foldStep_pairs o t _
+
+theorem foldl_pairs_some {α} (o : ColOrder α) : ∀ (ps : List (α × α)) (a b : α),
+    ps.foldl (fun acc p => foldStep o acc (some p)) (some (a, b)) =
+      some (minLoopR o a (ps.map Prod.fst), minLoopR o.flip b (ps.map Prod.snd))
+  | [], _, _ => rfl
+  | (pmn, pmx) :: t, a, b => by
+    rw [List.foldl_cons]
+    have e : foldStep o (some (a, b)) (some (pmn, pmx)) =
+        some (if !o.ok a || o.lt pmn a then pmn else a, if !o.ok b || o.lt b pmx then pmx else b) := rfl
+    rw [e, foldl_pairs_some o t]
+    rfl
+
+theorem foldChunk_eq {α} (o : ColOrder α) (pages : List (Option (α × α))) :
+    foldChunk o pages =
+      match pairsOf pages with
+      | [] => none
+      | p0 :: pt => some (minLoopR o p0.1 (pt.map Prod.fst), minLoopR o.flip p0.2 (pt.map Prod.snd)) := by
+  unfold foldChunk
+  rw [foldl_foldStep_pairs]
+  cases hps : pairsOf pages with
+  | nil => rfl
+  | cons p0 pt =>
+    obtain ⟨a, b⟩ := p0
+    simp only [List.foldl, foldStep]
+    exact foldl_pairs_some o pt a b
+
+theorem minLoopR_mem {α} (o : ColOrder α) : ∀ (xs : List α) (lo : α), minLoopR o lo xs ∈ lo :: xs
+  | [], lo => by simp [minLoopR]
+  | v :: rest, lo => by
+    simp only [minLoopR]
+    by_cases hc : (!o.ok lo || o.lt v lo) = true
+    · rw [if_pos hc]
+      have := minLoopR_mem o rest v
+      simp only [List.mem_cons] at this ⊢
+      rcases this with h | h
+      · exact Or.inr (Or.inl h)
+      · exact Or.inr (Or.inr h)
+    · rw [if_neg hc]
+      have := minLoopR_mem o rest lo
+      simp only [List.mem_cons] at this ⊢
+      rcases this with h | h
+      · exact Or.inl h
+      · exact Or.inr (Or.inr h)
+
+/-- the repaired loop skips leading NaN candidates and then is the NaN-skipping loop `minLoop` -/
+theorem minLoopR_eq {α} {o : ColOrder α} (h : Lawful o) : ∀ (xs : List α) (lo y : α) (rest : List α),
+    (lo :: xs).dropWhile (fun v => !o.ok v) = y :: rest → minLoopR o lo xs = minLoop o y rest
+  | [], lo, y, rest, hd => by
+    simp only [List.dropWhile] at hd
+    split at hd
+    · simp at hd
+    · simp only [List.cons.injEq] at hd
+      rw [← hd.1, ← hd.2]; rfl
+  | v :: t, lo, y, rest, hd => by
+    simp only [minLoopR]
+    cases hlo : o.ok lo with
+    | true =>
+      simp only [List.dropWhile, hlo, Bool.not_true] at hd
+      simp only [List.cons.injEq] at hd
+      rw [← hd.1, ← hd.2, minLoop_cons h]
+      simp only [Bool.not_true, Bool.false_or]
+      have hok' : o.ok (if o.lt v lo = true then v else lo) = true := by
+        split
+        · rename_i hlt; exact (h.nan _ _ hlt).1
+        · exact hlo
+      exact minLoopR_eq h t _ _ t (by simp [List.dropWhile, hok'])
+    | false =>
+      simp only [List.dropWhile, hlo, Bool.not_false] at hd
+      simp only [Bool.not_false, Bool.true_or, if_true]
+      exact minLoopR_eq h t v y rest hd
+
+/-- SPEC-side statement of what the chunk statistics must be, given per-page bounds: as soon as SOME page
+    has non-NaN bounds the chunk bounds are non-NaN page bounds and bound every non-NaN page bound. -/
+theorem foldChunk_spec {α} {o : ColOrder α} (h : Lawful o) (pages : List (Option (α × α)))
+    (hmn : ∃ p ∈ pairsOf pages, o.ok p.1 = true) (hmx : ∃ p ∈ pairsOf pages, o.ok p.2 = true) :
+    ∃ cmn cmx, foldChunk o pages = some (cmn, cmx) ∧
+      o.ok cmn = true ∧ o.ok cmx = true ∧
+      cmn ∈ (pairsOf pages).map Prod.fst ∧ cmx ∈ (pairsOf pages).map Prod.snd ∧
+      (∀ p ∈ pairsOf pages, o.ok p.1 = true → o.lt p.1 cmn = false) ∧
+      (∀ p ∈ pairsOf pages, o.ok p.2 = true → o.lt cmx p.2 = false) := by
+  rw [foldChunk_eq]
+  cases hps : pairsOf pages with
+  | nil => rw [hps] at hmn; obtain ⟨p, hp, _⟩ := hmn; simp at hp
+  | cons p0 pt =>
+    rw [hps] at hmn hmx
+    -- generic component argument
+    have comp : ∀ (o' : ColOrder α), Lawful o' → ∀ (f : α × α → α), (∃ p ∈ p0 :: pt, o'.ok (f p) = true) →
+        o'.ok (minLoopR o' (f p0) (pt.map f)) = true ∧
+        minLoopR o' (f p0) (pt.map f) ∈ (p0 :: pt).map f ∧
+        ∀ p ∈ p0 :: pt, o'.ok (f p) = true → o'.lt (f p) (minLoopR o' (f p0) (pt.map f)) = false := by
+      intro o' h' f ⟨q, hq, hqok⟩
+      have hqm : f q ∈ f p0 :: pt.map f := by
+        simpa using List.mem_map.mpr ⟨q, hq, rfl⟩
+      have hm := mem_dropWhile_of_not (fun v => !o'.ok v) (f p0 :: pt.map f) (f q) hqm (by simp [hqok])
+      cases hd : List.dropWhile (fun v => !o'.ok v) (f p0 :: pt.map f) with
+      | nil => rw [hd] at hm; simp at hm
+      | cons y rest =>
+        have hy : o'.ok y = true := by simpa using dropWhile_head_not _ _ _ _ hd
+        rw [minLoopR_eq h' _ _ y rest hd]
+        obtain ⟨a1, a2, a3⟩ := minLoop_spec h' rest y hy
+        refine ⟨a2, ?_, ?_⟩
+        · have := mem_of_mem_dropWhile (fun v => !o'.ok v) (f p0 :: pt.map f) _ (by rw [hd]; exact a1)
+          simpa using this
+        · intro p hp hpok
+          have hpm : f p ∈ f p0 :: pt.map f := by simpa using List.mem_map.mpr ⟨p, hp, rfl⟩
+          have := mem_dropWhile_of_not (fun v => !o'.ok v) (f p0 :: pt.map f) (f p) hpm (by simp [hpok])
+          rw [hd] at this
+          exact a3 (f p) this hpok
+    obtain ⟨a1, a2, a3⟩ := comp o h Prod.fst hmn
+    obtain ⟨b1, b2, b3⟩ := comp o.flip h.flip Prod.snd hmx
+    exact ⟨_, _, rfl, a1, b1, a2, b2, a3, b3⟩
+
+theorem foldChunk_none {α} (o : ColOrder α) (pages : List (Option (α × α)))
+    (hps : pairsOf pages = []) : foldChunk o pages = none := by
+  rw [foldChunk_eq, hps]
 
 /-! ## Truncation of byte-array bounds (column index only) -/
 
 /-- MIRROR column_index.go:684-689 `truncateLargeMinByteArrayValue` -/
 abbrev truncMin := Trunc.truncMin
-/-- MIRROR column_index.go:693-713 `truncateLargeMaxByteArrayValue` + `incrementByteArrayInplace`
-    (the code as it stands: on full overflow all bytes are restored to 0xFF) -/
-abbrev truncMax := Trunc.truncMaxBuggy
-/-- REPAIRED variant (parquet-java `BinaryTruncator`): on full overflow keep the untruncated value -/
-abbrev truncMaxFixed := Trunc.truncMaxFixed
+/-- MIRROR column_index.go `truncateLargeMaxByteArrayValue` + `incrementByteArrayInplace` BEFORE the fix:
+    on full overflow the kept prefix was restored to 0xFF..FF and returned. Regression fact. -/
+abbrev truncMax_before_fix := Trunc.truncMaxBuggy
+/-- MIRROR column_index.go `truncateLargeMaxByteArrayValue` (as repaired, like parquet-java's
+    `BinaryTruncator`): when the increment of the kept prefix overflows the untruncated value is kept -/
+abbrev truncMax := Trunc.truncMaxFixed
 
 /-- `sizeLimit > 0` guard of the byte-array indexers (column_index.go:519-527, 571-579) -/
 def truncMinLim (v : List Nat) (lim : Nat) : List Nat := if lim > 0 then truncMin v lim else v
@@ -631,9 +777,9 @@ theorem map_const_of_all {p : List Nat} (h : ∀ b ∈ p, b = 255) (r : List Nat
       exact ⟨(h a (by simp)).symm, ih (fun b hb => h b (by simp [hb])) xs (by simpa using hl)⟩
 
 /-- on an all-0xFF prefix the code returns the bare prefix -/
-theorem truncMax_allFF (v : List Nat) (n : Nat) (hlen : n < v.length) (hff : ∀ b ∈ v.take n, b = 255) :
-    truncMax v n = v.take n := by
-  simp only [truncMax, Trunc.truncMaxBuggy]
+theorem truncMax_before_fix_allFF (v : List Nat) (n : Nat) (hlen : n < v.length) (hff : ∀ b ∈ v.take n, b = 255) :
+    truncMax_before_fix v n = v.take n := by
+  simp only [truncMax_before_fix, Trunc.truncMaxBuggy]
   have hc := (incr_carry_iff (v.take n)).mpr hff
   have hl := Trunc.incr_length (v.take n)
   cases hi : Trunc.incr (v.take n) with
@@ -701,9 +847,18 @@ def boundaryOrderOf (minOrder maxOrder : Int) : Nat :=
 def storedMins {α} (z : α) (pages : List (Option (α × α))) : List α := pages.map (fun p => (p.getD (z, z)).1)
 def storedMaxs {α} (z : α) (pages : List (Option (α × α))) : List α := pages.map (fun p => (p.getD (z, z)).2)
 
-/-- MIRROR `ColumnIndex()` of the numeric indexers: boundary order over the stored values, null pages included -/
-def indexOrder {α} (o : ColOrder α) (z : α) (pages : List (Option (α × α))) : Nat :=
+/-- MIRROR `ColumnIndex()` of the numeric indexers BEFORE the fix "no boundary order when a bound is
+    NaN": boundary order over the stored values, null pages included. Regression fact. -/
+def indexOrder_before_fix {α} (o : ColOrder α) (z : α) (pages : List (Option (α × α))) : Nat :=
   boundaryOrderOf (orderOf o.lt (storedMins z pages)) (orderOf o.lt (storedMaxs z pages))
+
+/-- MIRROR `ColumnIndex()` of the numeric indexers (as repaired): the float/double indexers claim no order
+    when `containsNaN(minValues) || containsNaN(maxValues)`; for the integer indexers `ok` is constantly
+    true and the guard is vacuous. -/
+def indexOrder {α} (o : ColOrder α) (z : α) (pages : List (Option (α × α))) : Nat :=
+  if (storedMins z pages).all o.ok && (storedMaxs z pages).all o.ok then
+    boundaryOrderOf (orderOf o.lt (storedMins z pages)) (orderOf o.lt (storedMaxs z pages))
+  else 0
 
 /-- MIRROR `byteArrayColumnIndexer.ColumnIndex` (column_index.go:516-535): null pages store the empty
     string, every entry is truncated, then `orderOfBytes` on the truncated entries -/
@@ -719,15 +874,25 @@ def splitFixed (size : Nat) : Nat → List Nat → List (List Nat)
   | 0, _ => []
   | k + 1, data => data.take size :: splitFixed size k (data.drop size)
 
-/-- MIRROR `fixedLenByteArrayColumnIndexer.IndexPage/ColumnIndex` (column_index.go:562-586): the bounds
-    are appended to one flat buffer (`Value{}.byteArray()` is empty for a null page) and split again. -/
-def flbaIndexMins (size lim : Nat) (pages : List (Option (List Nat × List Nat))) : List (List Nat) :=
+/-- MIRROR `fixedLenByteArrayColumnIndexer.IndexPage/ColumnIndex` BEFORE fix 0506fde: the bounds were
+    appended to one flat buffer (`Value{}.byteArray()` is empty for a null page) and split again. -/
+def flbaIndexMins_before_fix (size lim : Nat) (pages : List (Option (List Nat × List Nat))) : List (List Nat) :=
   let flat := (storedMins [] pages).flatten
   (splitFixed size (flat.length / size) flat).map (truncMinLim · lim)
 
-/-- MIRROR `be128ColumnIndexer.IndexPage` (column_index.go:664-672): null bounds are skipped -/
-def be128IndexMins (pages : List (Option (List Nat × List Nat))) : List (List Nat) :=
+/-- MIRROR `be128ColumnIndexer.IndexPage` BEFORE fix 0506fde: null bounds were skipped -/
+def be128IndexMins_before_fix (pages : List (Option (List Nat × List Nat))) : List (List Nat) :=
   (pairsOf pages).map Prod.fst
+
+/-- MIRROR `fixedLenByteArrayColumnIndexer` (as repaired, `appendValue`): a null page stores `size` zero
+    bytes; every entry is truncated like the byte-array indexer's; `orderOfBytes` on the result.
+    `be128ColumnIndexer` is the instance `size = 16`, `lim = 0` (no truncation). -/
+def flbaIndexMins (size lim : Nat) (pages : List (Option (List Nat × List Nat))) : List (List Nat) :=
+  (storedMins (List.replicate size 0) pages).map (truncMinLim · lim)
+def flbaIndexMaxs (size lim : Nat) (pages : List (Option (List Nat × List Nat))) : List (List Nat) :=
+  (storedMaxs (List.replicate size 0) pages).map (truncMaxLim · lim)
+def flbaIndexOrder (size lim : Nat) (pages : List (Option (List Nat × List Nat))) : Nat :=
+  boundaryOrderOf (orderOfBytes (flbaIndexMins size lim pages)) (orderOfBytes (flbaIndexMaxs size lim pages))
 
 theorem isAscBy_pairwise {α} {o : ColOrder α} (h : Lawful o) : ∀ xs : List α, (∀ x ∈ xs, o.ok x = true) →
     isAscBy o.lt xs = true → xs.Pairwise (fun a b => o.lt b a = false)
